@@ -74,6 +74,29 @@ Theorem p_init_is_mean_two_calls :
 Proof. exact @mean_two_calls_lemma. Qed.
 Print Assumptions p_init_is_mean_two_calls.
 
+(* 2'. p_init_is_mean, grouped form over labels: after set_fixed_node_entries (mode p) on ANY table of pressure-fixing
+       rows (any labels, row order, several rows per junction, rows of type t filtered out) the pressure of node i times
+       the new count is the old pressure times the old count plus the sum S of the valid values on node i, and the count
+       grows by their number N - hence by induction over the calls (ext grids, then circulation pumps) PINIT is the mean
+       of all valid values on the junction.  [pos] injective on the labels used (the junction lookup is a bijection);
+       [div] inverts the multiplication by the new count wherever a row was written. *)
+Theorem p_init_is_mean_grouped :
+  forall (A : Type) (zero one : A) (add mul sub : A -> A -> A) (opp : A -> A),
+  ring_theory zero one add mul sub opp eq ->
+  forall (div : A -> A -> A) (pos : Z -> nat) (rows : list (@fx_row A)) (st : @fx_state A) (i : nat),
+  let S := fsum zero add (fun l => Nat.eqb (pos l) i) (fx_values rows) in
+  let N := fsum zero add (fun l => Nat.eqb (pos l) i) (fx_ones one rows) in
+  let st' := fixed_entries2 zero one add mul div pos rows st in
+  (forall r r', In r rows -> In r' rows -> fx_valid r = true -> fx_valid r' = true ->
+                pos (fx_junction r) = pos (fx_junction r') -> fx_junction r = fx_junction r') ->
+  i < length (fs_p st) -> i < length (fs_cnt st) ->
+  ((exists r, In r rows /\ fx_valid r = true /\ pos (fx_junction r) = i) ->
+   forall a, mul (div a (add N (nth i (fs_cnt st) zero))) (add N (nth i (fs_cnt st) zero)) = a) ->
+  mul (nth i (fs_p st') zero) (add N (nth i (fs_cnt st) zero)) = add (mul (nth i (fs_p st) zero) (nth i (fs_cnt st) zero)) S
+  /\ nth i (fs_cnt st') zero = add (nth i (fs_cnt st) zero) N.
+Proof. exact @fixed_entries_grouped_lemma. Qed.
+Print Assumptions p_init_is_mean_grouped.
+
 (* 4. circulation pump (pressure): Newton correction of the return pressure; at a fixed point the
       kernel's load_vec = 0, i.e. (lift_fixed_point) p_flow - p_return = plift + height term - friction *)
 Theorem circ_pressure_row :
@@ -134,3 +157,11 @@ Proof.
   intros r Hr. change (dim ex3_nodes ex3_branches) with 9 in Hr.
   do 9 (destruct r as [|r]; [vm_compute; reflexivity|]). lia.
 Qed.
+
+(* grouped mean on a concrete table at Q: ext grids 6 / 9 bar (+ one of type t) on junction 100005, 3 bar on junction 7 *)
+Example example_mean_grouped :
+  let st := fixed_entries2 0%Q 1%Q Qplus Qmult Qdiv (zassoc [(100005%Z, 2); (7%Z, 0)] 9)
+              [fx 100005 6 true; fx 7 3 true; fx 100005 50 false; fx 100005 9 true]
+              (mkFxs [5; 5; 5]%Q [0; 0; 0]%Q [false; false; false]) in
+  qlist_eqb (fs_p st) [3; 5; 15 # 2]%Q = true /\ qlist_eqb (fs_cnt st) [1; 0; 2]%Q = true /\ fs_isP st = [true; false; true].
+Proof. vm_compute. repeat split; reflexivity. Qed.
